@@ -17,6 +17,7 @@ import (
 	"context"
 	"fmt"
 	"math/rand/v2"
+	"os"
 	"sort"
 	"strconv"
 	"strings"
@@ -1080,7 +1081,7 @@ type kfCase struct {
 	Got   string `json:"got"`
 }
 
-func modeKF() {
+func modeKF(in string) {
 	for _, c := range []kfCase{
 		{ID: "KF-C33-1", Class: "neg_index_read_out_of_range", Src: "a=()\necho \"<${a[-1]}>\"\necho after\n"},
 		{ID: "KF-C33-1", Class: "neg_index_read_out_of_range", Src: "a=(p q)\necho \"<${a[-3]}>\"\necho after\n"},
@@ -1094,6 +1095,32 @@ func modeKF() {
 		c.Got = hx.Hex(runProg(c.Src))
 		hx.Emit(c)
 	}
+	// the pinned regression corpus (-in corpus/c33/regress.txt): blocks "### name" + program
+	if in == "" {
+		return
+	}
+	data, err := os.ReadFile(in)
+	if err != nil {
+		panic(err)
+	}
+	var cur *kfCase
+	flush := func() {
+		if cur != nil && strings.TrimSpace(cur.Src) != "" {
+			cur.Got = hx.Hex(runProg(cur.Src))
+			hx.Emit(*cur)
+		}
+	}
+	for _, line := range strings.Split(string(data), "\n") {
+		if name, ok := strings.CutPrefix(line, "### "); ok {
+			flush()
+			cur = &kfCase{ID: "pinned:" + strings.TrimSpace(name)}
+			continue
+		}
+		if cur != nil {
+			cur.Src += line + "\n"
+		}
+	}
+	flush()
 }
 
 func main() {
@@ -1107,7 +1134,7 @@ func main() {
 	case "shell":
 		modeShell(o)
 	case "kf":
-		modeKF()
+		modeKF(o.In)
 	default:
 		panic("unknown mode " + o.Mode)
 	}
